@@ -70,6 +70,11 @@ type opSpec struct {
 	Park   string `json:"park,omitempty"`
 	Retx   int    `json:"retx,omitempty"` // N of the step this is a (possibly altered) retransmission of
 
+	// One-shot fault the fakes fire for this request (see fakes.go) and
+	// the status it reports (io, access, rofs, nxio).
+	Fault   string `json:"fault,omitempty"`
+	FaultSt string `json:"faultst,omitempty"`
+
 	// SETCLIENTID / SETCLIENTID_CONFIRM / RENEW / owners.
 	LongID   string `json:"long,omitempty"`
 	Verifier uint64 `json:"verf,omitempty"`
@@ -319,6 +324,22 @@ func resStatus(r nfsv4.NfsResop4) nfsv4.Nfsstat4 {
 	default:
 		panic(fmt.Sprintf("harness: unexpected result operation %T", r))
 	}
+}
+
+// faultNfsStatus is the NFSv4 status the protocol assigns to the
+// file system error a fault reports.
+func faultNfsStatus(name string) nfsv4.Nfsstat4 {
+	switch name {
+	case "io":
+		return nfsv4.NFS4ERR_IO
+	case "access":
+		return nfsv4.NFS4ERR_ACCESS
+	case "rofs":
+		return nfsv4.NFS4ERR_ROFS
+	case "nxio":
+		return nfsv4.NFS4ERR_NXIO
+	}
+	panic("harness: unknown fault status " + name)
 }
 
 func statusName(s nfsv4.Nfsstat4) string {
